@@ -357,6 +357,7 @@ func (t *Task) runWithLocking() {
 	// enter executing state
 	t.executing = true
 	t.runSubmissions = t.submissions
+	verifPoint("tasks.run.admitted", t.name)
 	t.lock.Unlock()
 	verifPoint("tasks.run.checked", t.name)
 
